@@ -71,11 +71,15 @@ impl DelegateToDefaultImpl for Rc<Unimock> {
     type Delegator = Rc<DefaultImplDelegator>;
 
     fn to_delegator(self) -> Self::Delegator {
-        Rc::new(DefaultImplDelegator::__from_unimock((*self).clone()))
+        // The last Rc hands over the instance itself.
+        // Cloning it would drop the original while its clone is alive.
+        let unimock = Rc::try_unwrap(self).unwrap_or_else(|rc| (*rc).clone());
+        Rc::new(DefaultImplDelegator::__from_unimock(unimock))
     }
 
     fn from_delegator(delegator: Self::Delegator) -> Self {
-        Rc::new(delegator.unimock.clone())
+        let delegator = Rc::try_unwrap(delegator).unwrap_or_else(|rc| (*rc).clone());
+        Rc::new(delegator.unimock)
     }
 }
 
@@ -83,11 +87,15 @@ impl DelegateToDefaultImpl for Arc<Unimock> {
     type Delegator = Arc<DefaultImplDelegator>;
 
     fn to_delegator(self) -> Self::Delegator {
-        Arc::new(DefaultImplDelegator::__from_unimock((*self).clone()))
+        // The last Arc hands over the instance itself.
+        // Cloning it would drop the original while its clone is alive.
+        let unimock = Arc::try_unwrap(self).unwrap_or_else(|arc| (*arc).clone());
+        Arc::new(DefaultImplDelegator::__from_unimock(unimock))
     }
 
     fn from_delegator(delegator: Self::Delegator) -> Self {
-        Arc::new(delegator.unimock.clone())
+        let delegator = Arc::try_unwrap(delegator).unwrap_or_else(|arc| (*arc).clone());
+        Arc::new(delegator.unimock)
     }
 }
 
